@@ -459,7 +459,25 @@ func (it *Interp) convert(v Value, from, to types.Type) Value {
 				}
 				return x
 			}
-			return it.tb.ConvInt(x, isSigned(from), intWidth(to))
+			w := intWidth(to)
+			if w > x.S.W && x.Op == "extract" && x.Args[0].S.W == w {
+				// widening a value that was narrowed before: if the original provably fits the narrow type the
+				// round trip is the identity (index fields written as int32/uint32 and read back as int)
+				var hi, lo int
+				fmt.Sscanf(x.Name, "%d %d", &hi, &lo)
+				if lo == 0 && hi == x.S.W-1 {
+					if l, h, ok := it.bounds(x.Args[0]); ok {
+						nb := uint(x.S.W)
+						if isSigned(from) && l >= -(1<<(nb-1)) && h < 1<<(nb-1) {
+							return x.Args[0]
+						}
+						if !isSigned(from) && l >= 0 && h < 1<<nb {
+							return x.Args[0]
+						}
+					}
+				}
+			}
+			return it.tb.ConvInt(x, isSigned(from), w)
 		case t.Info()&types.IsFloat != 0:
 			w := 64
 			if t.Kind() == types.Float32 {
